@@ -12,4 +12,35 @@ theorem C14_input_irrelevant (cfg : Config σ τ ε) (inp' : Option (List Nat)) 
     (st : LState σ) : next cfg st = next { cfg with input := inp' } st :=
   next_input_irrelevant cfg inp' hI st
 
+/-- …and so are whole runs: the four constructors (`new`, `new_with_state`: `input = some chars`; `new_from_iter`, `new_from_iter_with_state`:
+`input = none`; the user state is `Default::default()` or the given one) start from the same lexer state `initState user chars` and differ only in
+`Config.input`; any number of calls of `next()` give the same items (tokens, locations, errors) and the same final state. -/
+theorem C14_runs_agree (cfg : Config σ τ ε) (inp1 inp2 : Option (List Nat)) (hI : IgnoresText cfg.actions) (n : Nat) (st : LState σ) :
+    runN { cfg with input := inp1 } n st = runN { cfg with input := inp2 } n st := by
+  induction n generalizing st with
+  | zero => rfl
+  | succ n ih =>
+    have h1 := next_input_irrelevant { cfg with input := inp1 } inp2 hI st
+    have e : ({ ({ cfg with input := inp1 } : Config σ τ ε) with input := inp2 } : Config σ τ ε) = { cfg with input := inp2 } := rfl
+    rw [e] at h1
+    unfold runN
+    rw [h1]
+    cases next { cfg with input := inp2 } st with
+    | none => rfl
+    | some r =>
+      obtain ⟨item, st'⟩ := r
+      simp only
+      rw [ih st']
+
+/-- the one difference: for iterator input `match_()` is unavailable (it would panic: the lexer holds no input string) as soon as the match is
+non-empty; for `&str` input it is the slice of the input between the match's byte offsets -/
+theorem C14_match_text (cfg : Config σ τ ε) (a : Nat) (st : LState σ) :
+    (cfg.input = none → st.curEnd.byte ≠ 0 → (mkView cfg a st).text = none) ∧
+    (∀ inp, cfg.input = some inp → (mkView cfg a st).text = sliceBytes inp st.curStart.byte st.curEnd.byte) := by
+  constructor
+  · intro h hb
+    simp [mkView, h, hb]
+  · intro inp h
+    simp [mkView, h]
+
 end Lexgen
